@@ -58,12 +58,44 @@ Proof.
   - reflexivity.
   - (* aliasing an own object under a second attribute: SAlias brings in nothing from outside the receiver *)
     destruct (zmem _ _); [reflexivity|]. destruct (zmem _ _); [reflexivity|]. destruct (_ =? _); reflexivity.
+  - (* a list of lists: fresh lists appended to a fresh list *)
+    assert (In_ : tight (map (fun vs => AAppend [A (resolve_alias h r name)] (new_list vs)) vss) = true)
+      by (apply tight_map_scalar; intros vs; reflexivity).
+    destruct (zmem _ _); [reflexivity|]. destruct (zmem _ _).
+    + change (tight ([ASet [] (A (resolve_alias h r name)) (new_list [])] ++ map (fun vs => AAppend [A (resolve_alias h r name)] (new_list vs)) vss) = true).
+      rewrite tight_app, In_. reflexivity.
+    + destruct (_ =? _); [|reflexivity]. rewrite tight_app, In_. reflexivity.
+  - destruct (zmem _ _); [reflexivity|]. destruct (zmem _ _); [reflexivity|]. destruct (_ =? _); reflexivity.
   - destruct (zmem _ _); [destruct (Nat.eqb _ _)|]; reflexivity.
+Qed.
+
+(* ------------------------------------------------------------------ the three routes reach the same function.
+   Proved by computation from the constants regenerated from the source on every check: if `__copy__ = copy` is removed, if
+   `__deepcopy__` stops being `return self.copy()`, or if a class of the towers defines its own entry point, these proofs no
+   longer compile. *)
+Theorem three_routes_are_copy rt K h r : copy_route rt K h r = the_copy K h r.
+Proof. unfold copy_route. destruct (is_linker h r); destruct rt; reflexivity. Qed.
+
+(* why it matters: without `__copy__ = copy`, copy.copy would return an object holding the SAME objects as the original *)
+Lemma shallow_route_shares K h r o :
+  nth_error h r = Some o -> copy_by_route false true true RCopyCopy K h r = Some (h ++ [o], length h).
+Proof. intros H. cbn [copy_by_route andb]. unfold shallow_copy. rewrite H. reflexivity. Qed.
+
+Lemma copy_route_event K s rt i :
+  run_hevent K s (HCopyRoute rt i) =
+  match nth_error (sroots s) i with
+  | Some r => run_event K s (if is_linker (sh s) r then ELinkerCopy i else ECopy i)
+  | None => s
+  end.
+Proof.
+  cbn [run_hevent]. destruct (nth_error (sroots s) i) as [r|] eqn:Er; [|reflexivity].
+  rewrite three_routes_are_copy. unfold the_copy. destruct (is_linker (sh s) r); cbn [run_event]; rewrite Er; reflexivity.
 Qed.
 
 (* ------------------------------------------------------------------ histories of operations *)
 Definition hevent_ok (e : hevent) : bool :=
   match e with
+  | HCopyRoute _ _ => true
   | HOps _ _ => true
   | HEv e => event_ok e
   | HCopySeries _ _ _ _ => true
@@ -73,6 +105,7 @@ Definition hevent_ok (e : hevent) : bool :=
 
 Definition hreceiver (e : hevent) : option nat :=
   match e with
+  | HCopyRoute _ _ => None
   | HOps i _ => Some i
   | HEv e => receiver e
   | HCopySeries i _ _ _ => Some i
@@ -127,7 +160,15 @@ Theorem hevent_independent K s e :
   (forall j rj, nth_error (sroots s) j = Some rj -> hreceiver e <> Some j ->
                 same_subheap (sh s) (sh (run_hevent K s e)) rj).
 Proof.
-  intros RO OK. destruct e as [i os|e|i j0 sn dn|i j0 sn dn|ci a j0 sn dn].
+  intros RO OK. destruct e as [rt i|i os|e|i j0 sn dn|i j0 sn dn|ci a j0 sn dn].
+  - (* a copy by any of the three routes *)
+    rewrite copy_route_event. cbn [hreceiver]. destruct (nth_error (sroots s) i) as [r|] eqn:Er.
+    + destruct (is_linker (sh s) r).
+      * destruct (event_independent K s (ELinkerCopy i) RO eq_refl) as (RO1 & N1 & U1).
+        split; [exact RO1|]. split; [exact N1|]. intros j rj Hj _. apply (U1 j rj Hj). cbn. discriminate.
+      * destruct (event_independent K s (ECopy i) RO eq_refl) as (RO1 & N1 & U1).
+        split; [exact RO1|]. split; [exact N1|]. intros j rj Hj _. apply (U1 j rj Hj). cbn. discriminate.
+    + split; [exact RO|]. split; [exists []; rewrite app_nil_r; reflexivity|]. intros; apply same_subheap_refl.
   - destruct (hops_independent K i os s RO) as (RO1 & R1 & U1).
     split; [exact RO1|]. split; [exists []; rewrite app_nil_r; exact R1|].
     intros j rj Hj Nj. apply (U1 j rj Hj). intros ->. apply Nj. reflexivity.
